@@ -139,11 +139,13 @@ theorem C09_scatter_partition (n p : Nat) (hn : 0 < n) (hp : 0 < p) :
   ⟨extents_partition n p hn hp, extents_nonempty n p hn hp, extents_length_le n p hn hp⟩
 
 /-- **C09 (attestation liveness, all clean histories).** After any fault-free history of operations
-    from an empty store, a well-formed request from an authorised client that advances on everything
-    released so far for its key (and is below 2^63) is signed. -/
+    from an empty store (signing, restarts, account creation, account and wallet lock / unlock — no live
+    import, which the property excludes), a well-formed request from a client that is authorised under the
+    configuration as it is then, that advances on everything released so far for its key (and is below
+    2^63) is signed. -/
 theorem C09_live_att (cfg : Config) (ops : List Op) (hc : ∀ op ∈ ops, op.clean)
     (c : String) (a : Addr) (d : AttData) (acct : Account)
-    (hwf : d.wellFormed = true) (hpc : preCheck cfg c a opAttest = .ok acct)
+    (hwf : d.wellFormed = true) (hpc : preCheck (run (init cfg []) ops).cfg c a opAttest = .ok acct)
     (hroot : d.signingRoot ≠ none) (hdom : prefix4 (d.domain.getD []) = domAttester)
     (hord : d.src < d.tgt ∨ (d.src = 0 ∧ d.tgt = 0)) (hs : d.src ≤ maxI64) (ht : d.tgt ≤ maxI64)
     (hadv : ∀ e ∈ (run (init cfg []) ops).attLog, e.1 = acct.pubkey → e.2.tgt < d.tgt ∧ e.2.src ≤ d.src) :
@@ -153,7 +155,7 @@ theorem C09_live_att (cfg : Config) (ops : List Op) (hc : ∀ op ∈ ops, op.cle
 /-- **C09 (proposal liveness, all clean histories).** -/
 theorem C09_live_prop (cfg : Config) (ops : List Op) (hc : ∀ op ∈ ops, op.clean)
     (c : String) (a : Addr) (d : PropData) (acct : Account)
-    (hwf : d.wellFormed = true) (hpc : preCheck cfg c a opPropose = .ok acct)
+    (hwf : d.wellFormed = true) (hpc : preCheck (run (init cfg []) ops).cfg c a opPropose = .ok acct)
     (hroot : d.signingRoot ≠ none) (hdom : prefix4 (d.domain.getD []) = domProposer) (hs : d.slot ≤ maxI64)
     (hadv : ∀ e ∈ (run (init cfg []) ops).propLog, e.1 = acct.pubkey → e.2.slot < d.slot) :
     (signProp (run (init cfg []) ops) c a d {} false).2.res = .succeeded :=
